@@ -14,7 +14,7 @@ DEFAULT_FEATURES = {
     "tuples": True, "globals": True, "recursion": True, "fnvalues": True, "while": True, "for": True,
     "break_continue": True, "cond": True, "match_expr": True, "multifile": True, "effects": True,
     "array_mut": True, "struct_param": True, "early_return": True, "string_loop": True, "charops": True,
-    "exit_codes": True, "print_noline": True,
+    "exit_codes": True, "print_noline": True, "project_call_result": True, "array_slice": True,
     # ---- constructs bound to known findings / outside the clean zone (off by default) ----
     "for_continue": True,       # fixed in the VM (was: hang); `continue` inside `for` (VM)
     "logic_effect": True,       # fixed in the VM (was: both operands evaluated); and/or with an effectful right operand (VM)
@@ -22,22 +22,22 @@ DEFAULT_FEATURES = {
     "enum_print": True,         # fixed in the VM (was: enum(N)); printing an enum value
     "min_builtin": False,        # (min a b) on the VM
     "charclass_vm": True,        # fixed (was: wrong results on the VM) is_alpha / is_alnum / is_whitespace / is_upper / is_lower on the VM
-    "cmp_same_operand": False,   # (< a a): cc -Werror=tautological-compare
-    "strlen_in_cmp": False,      # str_length directly inside a comparison / cond: cc -Werror=sign-compare
+    "cmp_same_operand": True,  # fixed (was: cc -Werror=tautological-compare) (< a a)
+    "strlen_in_cmp": True,  # fixed (was: cc -Werror=sign-compare) str_length directly inside a comparison / cond
     "import_fnvalue": False,     # imported function used as a value: cc fails
     "array_struct": False,       # array of structs: nanoc fails
     "tuple_string": False,       # tuple with a string component: cc fails
     "nested_array": False,       # array<array<T>>
     "global_call_init": False,   # global initialised by a call: cc fails
-    "neg_negative_literal": False,  # (- -3) is transpiled to --3: cc fails
-    "cmp_of_cmp": False,         # (== (< a b) (< c d)) is transpiled without parentheses: cc -Werror=parentheses
+    "neg_negative_literal": True,  # fixed (was: transpiled to --3) (- -3)
+    "cmp_of_cmp": True,  # fixed (was: transpiled without parentheses) (== (< a b) (< c d))
     "match_scrutinee_expr": False,  # match on a non-variable scrutinee: payload binding has no type
     "match_expr_string": False,  # string-valued match expression nested in an expression: transpiler assumes int64
     "multi_effect_args": False,  # more than one order-sensitive operand or argument in one list (native evaluates right-to-left)
     "abs_effect_arg": False,     # (abs e) / (min a b) / (max a b) evaluate their arguments twice natively: effects duplicated
     "tuple_param": False,        # tuple-typed parameter: cc fails (unknown type name Tuple_...)
     "fnvalue_copy": False,       # let f2: fn.. = <fn-typed variable>: nanoc's evaluator double-frees
-    "neg_const_global": False,   # (- g) with a negative constant global is transpiled to --1: cc fails
+    "neg_const_global": True,  # fixed (was: transpiled to --1) (- g) with a negative constant global
     "fnvalue_let_nested": False, # let of a function type inside a nested block: cc fails (unknown type name FnType_N)
     "match_expr_nested": False,  # match expression anywhere but directly as the returned value: transpiler types it as the function's return type
     "zero_arg_fnvalue": False,   # (p) with p a zero-parameter function value is not a call
@@ -49,12 +49,13 @@ DEFAULT_FEATURES = {
     "aggregate_string_alias": False,  # a string variable stored (uncopied) into a struct/union/tuple/array field and reassigned later: nanoc's evaluator leaves the field dangling
     "block_shadow_selfref": False,  # inner `let x = f(x)` shadowing an outer x: natively the initialiser reads the new, uninitialised x
     "block_shadow_mut_mismatch": False,  # inner immutable `let x` shadowing a mutable outer x: the type checker then rejects `set x` after the block
+    "tuple_index_of_call": False,  # (f x).0 : the type checker cannot type a tuple index applied to a call result (valid program rejected)
     "print_indirect_call": False,  # (println (f args)) through a function value prints <unknown> natively
 }
 
 BUILTIN_NAMES = set("""abs min max str_length str_concat str_substring str_contains str_equals char_at string_from_char
 int_to_string string_to_int is_digit is_alpha is_alnum is_whitespace is_upper is_lower digit_value char_to_lower
-char_to_upper at array_length array_new array_push array_set array_pop array_remove_at""".split())
+char_to_upper at array_length array_new array_push array_set array_pop array_remove_at array_slice""".split())
 
 STR_POOL = ["", "a", "bc", "xyz", "hello", "nano", "A1", "q r", "Zz9", "lang", "0", "-7", "42"]
 INT_POOL = [0, 1, 2, 3, 5, 7, 10, -1, -3, 12, 100, 64, -50, 9]
@@ -354,6 +355,10 @@ class Gen:
             p = self.projection(sc, t, d)
             if p is not None:
                 return p
+        if k < 0.25 and self.f["project_call_result"]:
+            p = self.call_projection(sc, t, d)
+            if p is not None:
+                return p
         if k < 0.27 and self.f["cond"]:
             self.tag("cond")
             n = r.randint(1, 2)
@@ -571,6 +576,31 @@ class Gen:
             return ("bin", "+", ("str", ""), c)
         return c
 
+    def call_projection(self, sc, t, d):
+        """field / tuple index applied directly to a call result: (f args).x"""
+        cands = []
+        for sg in self.sigs:
+            if sg.name == self.cur_fn or (self.cur_pure_only and not sg.pure) or (self.no_effects and (sg.prints or not sg.pure)):
+                continue
+            rt = sg.ret
+            if isinstance(rt, tuple) and rt[0] == "struct":
+                for f, ft in self.structs[rt[1]]:
+                    if ft == t:
+                        cands.append((sg, ("field", f)))
+            elif isinstance(rt, tuple) and rt[0] == "tuple" and self.f["tuple_index_of_call"]:
+                for i, ct in enumerate(rt[1]):
+                    if ct == t:
+                        cands.append((sg, ("tidx", i)))
+        if not cands:
+            return None
+        sg, (kind, sel) = self.r.choice(cands)
+        call = self.gen_call(sc, sg, d)
+        self.tag("project.call_result")
+        e = ("field", call, sel) if kind == "field" else ("tidx", call, sel)
+        if t == "string" and kind == "field" and not self.f["string_field_direct"]:
+            return ("bin", "+", ("str", ""), e)
+        return e
+
     def match_expr(self, sc, t, d):
         r = self.r
         un = r.choice(list(self.unions))
@@ -623,6 +653,14 @@ class Gen:
         if sigs and d > 0 and self.chance(0.4):
             return self.gen_call(sc, r.choice(sigs), d)
         k = t[0]
+        if k == "array" and self.f["array_slice"] and self.chance(0.15):
+            src = [(n, dd) for n, dd in sc.vars() if dd["t"] == t and dd["known_len"] and not dd["owned"]]
+            if src:
+                n, dd = r.choice(src)
+                st = r.randrange(dd["known_len"] + 1)
+                ln = r.randrange(dd["known_len"] - st + 1)
+                self.tag("array.slice")
+                return ("call", "array_slice", [("var", n), ("int", st), ("int", ln)])
         if k == "array":
             self.tag("array.literal." + A.tstr(t[1]))
             n = r.randint(0, 4) if self.chance(0.85) else r.randint(5, 12)
